@@ -2,7 +2,8 @@
 """Documented configurations: every YAML / JSON code block of docs/*.rst that is a VSG configuration (has a rule, indent, severity,
 skip_phase, linesep or pragma section).  They are the option values users are told to write, so they are part of the bounded
 universe ("under every configuration").  Blocks whose rule names are placeholders, or that VSG itself rejects on an empty
-file, are dropped."""
+file, are dropped.  Option VALUES that appear only in the option tables (|<option>__<value>| substitutions of docs/configuring_*.rst)
+are harvested too: one configuration per (page, option, value), setting the option on every rule the page lists."""
 import glob
 import os
 import re
@@ -21,6 +22,7 @@ def harvest(repo):
     for f in sorted(glob.glob(os.path.join(repo, "docs", "*.rst"))):
         txt = open(f, encoding="utf-8").read()
         n = 0
+        page_severity = None
         for m in re.finditer(r"\.\. code-[bB]lock:: (yaml|json)\n\n((?:[ \t]+.*\n|\n)+)", txt):
             n += 1
             try:
@@ -33,8 +35,16 @@ def harvest(repo):
             if not d:
                 continue
             name = "doc:%s#%d" % (os.path.basename(f)[:-4], n)
+            if "severity" in d:
+                page_severity = d["severity"]
             if _accepted(d):
                 out[name] = d
+            elif page_severity is not None and "severity" not in d and _accepted(dict(d, severity=page_severity)):
+                # a fragment that uses the severities an earlier block of the same page defines: the two together are the configuration
+                out[name] = dict(d, severity=page_severity)
+    for name, d in _option_values(repo).items():
+        if _accepted(d):
+            out[name] = d
     _CACHE[repo] = out
     return out
 
@@ -70,6 +80,48 @@ def _accepted(cfg):
             oFile = vhdlFile.vhdlFile([""], configuration=oConfig)
             oRules = rule_list.rule_list(oFile, oConfig.severity_list)
             oRules.configure(oConfig)
-            return True
+            # a configuration that names a severity nobody defined leaves the rule without one: not a valid configuration
+            return all(oRule.severity is not None for oRule in oRules.rules)
     except BaseException:
         return False
+
+
+def _option_values(repo):
+    """(page, option, value) triples: the substitutions '|<option>__<value>| replace:: :code:`<value>` = ...' of the option
+    tables, the rules of the page (its '* `rule_id <...>`_' bullets), and for each triple the configuration that sets the
+    option to that value on every rule of the page that has the option (on every rule that has it, when the page lists none)."""
+    import contextlib
+    import io
+
+    import yaml
+
+    from vsg import rule_list, vhdlFile
+
+    with contextlib.redirect_stdout(io.StringIO()), contextlib.redirect_stderr(io.StringIO()):
+        oRules = rule_list.rule_list(vhdlFile.vhdlFile([""]), None)
+    has, default = {}, {}
+    for oRule in oRules.rules:
+        for opt in oRule.configuration:
+            has.setdefault(opt, []).append(oRule.get_unique_id())
+            default[(oRule.get_unique_id(), opt)] = getattr(oRule, opt, None)
+    out = {}
+    for f in sorted(glob.glob(os.path.join(repo, "docs", "configuring_*.rst"))):
+        txt = open(f, encoding="utf-8").read()
+        page = os.path.basename(f)[len("configuring_") : -4]
+        listed = set(re.findall(r"^\* `([a-z_0-9]+) <", txt, re.M))
+        for m in re.finditer(r"^\.\. \|([a-z_0-9]+?)__([a-z_0-9]+)\| replace::\n\s+:code:`([^`]+)`", txt, re.M):
+            opt, _, val = m.groups()
+            if opt not in has:
+                continue
+            rules = [r for r in has[opt] if r in listed] if listed else list(has[opt])
+            if not rules:
+                continue
+            try:
+                v = yaml.safe_load(val)
+            except Exception:
+                continue
+            if not isinstance(v, (str, bool, int)):
+                continue
+            # a number where the rule keeps a string (standard: 2008) is written as the string the documentation quotes
+            out["doc:values:%s:%s=%s" % (page, opt, val)] = {"rule": {r: {opt: (val if isinstance(default[(r, opt)], str) and not isinstance(v, (str, bool)) else v)} for r in sorted(rules)}}
+    return out
